@@ -1,12 +1,34 @@
 import IpaVerif.Model.Util
-/-! Line-protocol handlers for property C02 (model side). Import-free. -/
+import IpaVerif.Model.Malicious
+/-! Line-protocol handlers for property C02 (model side). Import-free.
+
+The model does not predict the byte-level outcome of a tampered run (it depends on unobservable shared
+randomness); it answers `judge`, and the verdict is the oracle's: the coverage table must classify every
+observed channel, and a tampered run must end in `abort` or the untampered histogram (theorem
+`one_tamperer_abort_or_same`). -/
 namespace IpaVerif.Driver.C02
-open IpaVerif.Util
+open IpaVerif.Util IpaVerif.Malicious
 
-/-- `some response` if the request belongs to this property, else `none`. -/
-def handle (_toks : List String) : Option String := none
+def handle (toks : List String) : Option String :=
+  match toks with
+  | "c02.channels" :: _ => some "judge"
+  | "c02.tamper" :: _ => some "judge"
+  | _ => none
 
-/-- Property oracle on (request, implementation response): `some "holds"`, `some "fails <why>"`, or `none`. -/
-def oracle (_toks : List String) (_impl : String) : Option String := none
+def oracle (toks : List String) (impl : String) : Option String :=
+  match toks with
+  | "c02.channels" :: _ =>
+    if impl.startsWith "abort" || impl.startsWith "panic" || impl == "timeout" then
+      some "fails honest malicious-mode query did not complete"
+    else
+      let gates := impl.splitOn ","
+      match gates.find? (fun g => (classify (g.splitOn "/")).isNone) with
+      | some g => some s!"fails helper-to-helper channel not covered by any protection mechanism: {g}"
+      | none => some "holds"
+  | "c02.tamper" :: _ =>
+    if impl.startsWith "abort-or-same" || impl == "untouched" then some "holds"
+    else if impl.startsWith "changed" then some "fails tampered run was accepted with a different histogram"
+    else some s!"fails unexpected outcome {impl.take 80}"
+  | _ => none
 
 end IpaVerif.Driver.C02
